@@ -239,7 +239,7 @@ func buildExprGrammar(sp exprSpec) (*lr1.Grammar, []*lr1.Prod) {
 		} else {
 			p = g.AddProd(expr, expr, ops[i], expr)
 		}
-		p.Precedence = o.prec
+		lr1.VerifSetPrec(p, o.prec)
 		if o.right {
 			p.Associativity = lr1.Right
 		}
@@ -259,7 +259,7 @@ func buildExprGrammar(sp exprSpec) (*lr1.Grammar, []*lr1.Prod) {
 				top = o.prec
 			}
 		}
-		p.Precedence = top + 1
+		lr1.VerifSetPrec(p, top+1)
 		p.Associativity = lr1.Right
 	}
 	g.AddProd(expr, lp, expr, rp)
@@ -277,7 +277,7 @@ func buildExprGrammar(sp exprSpec) (*lr1.Grammar, []*lr1.Prod) {
 func grammarInfos(g *lr1.Grammar) []lr1.VerifProdInfo {
 	infos := make([]lr1.VerifProdInfo, len(g.Prods))
 	for i, p := range g.Prods {
-		infos[i] = lr1.VerifProdInfo{Rule: p.Rule.Index, Prec: p.Precedence, Right: p.Associativity == lr1.Right}
+		infos[i] = lr1.VerifProdInfo{Rule: p.Rule.Index, Prec: int(p.Precedence), Right: p.Associativity == lr1.Right}
 	}
 	return infos
 }
